@@ -1,14 +1,39 @@
--- placeholder until the first run regenerates it
+-- REGENERATED on every run by /verif/check from the compiled /repo tree. Do not edit.
 namespace SdnsVerif.Gen.C10
 
-def size_udp_buf : Nat := 4096
-def size_udp_batch : Nat := 16
-def size_udp_tx_max : Nat := 16
+def beginwire_pins_capacity : Bool := true
+def chain_fields : List String := ["Writer", "Request", "base", "reqStorage", "Meta", "handlers", "pos", "count", "workPolicy", "detachCleanup", "inlineOnly", "handoff", "replay"]
+def chain_finish_touches : List String := ["Meta", "Request", "detachCleanup"]
+def chain_rebind_resets_writer : Bool := true
+def chain_reset_touches : List String := ["Meta", "Request", "Writer", "base", "count", "detachCleanup", "handoff", "inlineOnly", "pos", "replay", "reqStorage"]
+def chain_reset_untouched : List String := ["handlers", "workPolicy"]
+def chain_resetwire_touches : List String := ["Meta", "Request", "Writer", "base", "count", "detachCleanup", "handoff", "inlineOnly", "pos", "replay"]
+def chain_resetwire_untouched : List String := ["handlers", "reqStorage", "workPolicy"]
+def grouplookup_copies_when_shared : Bool := true
+def grouplookup_rewrites_id : Bool := true
+def rw_fields : List String := ["Transport", "msg", "wire", "size", "rcode", "proto", "remoteip", "internal", "directPack"]
+def rw_reset_sets : List String := ["Transport", "directPack", "internal", "msg", "proto", "rcode", "remoteip", "size", "wire"]
+def rw_unreset : List Nat := []
 def size_tcp_buf : Nat := 65535
+def size_tcp_drain : Nat := 8192
+def size_tcp_fill : Nat := 4096
+def size_tcp_min_frame : Nat := 12
 def size_tcp_small_rx : Nat := 2048
 def size_tcp_small_tx : Nat := 16382
-def size_tcp_fill : Nat := 4096
-def size_tcp_drain : Nat := 8192
-def size_tcp_min_frame : Nat := 12
+def size_udp_batch : Nat := 16
+def size_udp_buf : Nat := 4096
+def size_udp_tx_max : Nat := 16
+def stream_fields : List String := ["conn", "fill", "start", "end", "drain", "held", "werr", "deadline", "armed", "wait"]
+def stream_reset_sets : List String := ["armed", "conn", "deadline", "end", "held", "start", "wait", "werr"]
+def stream_unreset : List String := ["drain", "fill"]
+def tcp_fields : List String := ["engine", "conn", "stream", "slabShard", "rx", "tx", "large", "written", "readTime", "leased", "req", "chain", "carrier", "ednsWriter"]
+def tcp_frame_sets : List String := ["conn", "readTime", "stream", "written"]
+def tcp_unowned : List String := ["carrier", "chain", "ednsWriter", "engine", "large", "req", "rx", "tx"]
+def trypack_pins_capacity : Bool := true
+def udp_batch_reader_sets : List String := ["pc", "pktinfo", "pktinfoLen", "raddr", "rawSA", "rawSALen", "readTime", "remote", "replay", "rxLen", "state", "txLen", "written"]
+def udp_fields : List String := ["engine", "pc", "slabShard", "rx", "rxLen", "tx", "raddr", "readTime", "pktinfo", "pktinfoLen", "remote", "ipScratch", "req", "chain", "carrier", "ednsWriter", "rawSA", "rawSALen", "txLen", "burst", "written", "replay", "state"]
+def udp_portable_reader_sets : List String := ["pc", "pktinfo", "pktinfoLen", "raddr", "rawSALen", "readTime", "remote", "replay", "rxLen", "state", "txLen", "written"]
+def udp_release_resets : List String := ["pktinfoLen", "replay", "rxLen", "state", "txLen", "written"]
+def udp_unowned : List String := ["carrier", "chain", "ednsWriter", "engine", "ipScratch", "rawSA", "req", "rx", "tx"]
 
 end SdnsVerif.Gen.C10
